@@ -79,8 +79,13 @@ def load(path: Union[str, DDSPath, pathlib.Path]) -> Any:
         key = _store().fetch_paths([path_]).get(path_)
     if key is None:
         raise DDSException(f"The store {_store()} did not return path {path_}")
-    else:
-        return _store().fetch_blob(key)
+    if not _store().has_blob(key):
+        # (fetch_blob answers None for an absent blob, which is also a legitimate value)
+        raise DDSException(
+            f"The path {path_} refers to the blob {key}, which is not in the store {_store()}"
+            f" (inside an evaluation: the function that produces this path has not run yet)"
+        )
+    return _store().fetch_blob(key)
 
 
 def set_store(
